@@ -32,7 +32,7 @@ def parse_behaviours(out: str) -> list:
 
 
 def simulate(module: str, cfg: str, num: int, depth: int, seed: int, workers: int = 2) -> tuple[list, dict]:
-    r = tlc.run_model(module, cfg, workers=workers, timeout=600, coverage=False, heap='2g',
+    r = tlc.run_model(module, cfg, workers=workers, timeout=1800, coverage=False, heap='768m',
                       extra=['-simulate', f'num={max(1, num // workers)}', '-depth', str(depth), '-seed', str(seed + 1)])
     if r['violated']:
         raise tlc.TLCError(f'{module}: the specification violates {r["violated"]} in simulation\n' + r['out'][-2000:])
@@ -239,7 +239,7 @@ def replay_option_behaviour(beh: list, rng: random.Random, trace_id: int, reglog
                 kw, unknown = cz.kwargs(a['m'], call=(k == 'call'))
                 cmd = {'k': k, 'kw': kw}
                 if k == 'call':
-                    cmd['probes'] = sorted(set(relevant + [rng.randrange(len(C.PROBES))]))
+                    cmd['probes'] = sorted(set(relevant + [rng.randrange(len(C.PROBES)), rng.choice((0, 14, 14))]))
                 r = ctl.send(t, cmd)
                 ev = fill(new_event(t, k, SRC, C.mjson(kw, unknown)), r)
                 ev['cmd'] = {'k': k, 'kw': {n: C.vrepr(v) for n, v in kw.items()}}
@@ -322,7 +322,7 @@ def gen_script(rng: random.Random, n: int, flavour: str, ntrees: int) -> list:
             cmds.append({'k': 'edit', 'tree': rng.randrange(ntrees), 'seed': rng.randrange(1 << 30)})
         elif k == 'call':
             kw, unknown, bad = rand_kwargs(rng, C.OPTION_NAMES, call=True)
-            pr = sorted({i for nm in kw if nm in C.PROBE_FOR for i in C.PROBE_FOR[nm]} | {rng.randrange(len(C.PROBES))})
+            pr = sorted({i for nm in kw if nm in C.PROBE_FOR for i in C.PROBE_FOR[nm]} | {rng.randrange(len(C.PROBES)), rng.choice((1, 14))})
             cmds.append({'k': 'call', 'kw': kw, 'unknown': unknown, 'probes': pr})
         elif k in ('set', 'enter'):
             kw, unknown, bad = rand_kwargs(rng, names)
